@@ -697,6 +697,13 @@ def oracle(ctx, volume=1):
             check_jump(ctx, label, rot_seed, c, B, cs, "projector", g)
     if volume == 1 or not getattr(ctx, "_typical_done", False):
         ctx._typical_done = True
+        for label in (["qubit", "qutrit"] if ctx.quick else ["qubit", "qubit-rot", "qutrit", "2qubit"]):
+            for base_kind, sh, sk in (("zero", 0.1, 0.1), ("physical", 1e-2, 1e-3), ("physical", 1.0, 1e-4)):
+                seeds = [int(x) for x in g.integers(0, 2 ** 31, size=4)]
+                ctx.count(f"oracle random generation setting {label}")
+                ctx.case(("randset", label, base_kind, sh, sk, tuple(seeds)), nontrivial=True,
+                         sample={"op": "RandomEffectiveLindbladianGenerationSetting", "sys": label, "base": base_kind, "calls": len(seeds)})
+                check_random_setting(ctx, label, rot_seed, base_kind, sh, sk, seeds)
         for system, name, ids in typical_items(ctx):
             ctx.count(f"oracle typical Lindbladian {system}")
             ctx.case(("typical", system, name, tuple(ids)), nontrivial=(name != "identity"),
@@ -764,6 +771,68 @@ def check_typical(ctx, system, name, ids):
     return fails
 
 
+def check_random_setting(ctx, label, rot_seed, base_kind, sh, sk, seeds):
+    """RandomEffectiveLindbladianGenerationSetting: >= 3 successive generate() calls on ONE setting; each result must be
+    base (snapshot taken BEFORE the first call) + GKSL(H_random, K_random) rebuilt independently from the returned random
+    variables, the base generator held by the setting must stay bit-identical, results must not alias it, and an integer
+    seed must reproduce."""
+    from quara.simulation.random_effective_lindbladian_generation_setting import RandomEffectiveLindbladianGenerationSetting
+    from quara.objects.gate import Gate
+    c = sys_by_label(label, rot_seed)
+    B = basis_of(c)
+    d = c.dim
+    n = d * d
+    rep = {"kind": "randset", "sys": label, "rot_seed": rot_seed, "base": base_kind, "sh": sh, "sk": sk, "seeds": list(seeds)}
+    fails = []
+
+    def V(check, what):
+        ctx.violate(f"C18/random_setting/{check}", f"{label} base={base_kind} strengths=({sh:g},{sk:g}): {what}", rep)
+        fails.append(check)
+    try:
+        gb = np.random.Generator(np.random.PCG64(rot_seed + 5))
+        if base_kind == "zero":
+            base_hs = np.zeros((n, n))
+        else:                      # a physical non-trivial base generator
+            base_hs = el.generate_hs_from_hk(c, herm(gb, d, 0.5), psd(gb, n - 1, 2, 0.25))
+        base = EL(c, base_hs.copy(), is_physicality_required=True)
+        gate0 = Gate(c, np.eye(n))
+        setting = RandomEffectiveLindbladianGenerationSetting(c, gate0, base, sh, sk)
+        saved = np.array(setting.lindbladian_base.hs, dtype=np.float64, copy=True)
+        S = max(float(np.abs(saved).max()), sh, sk, 1e-300)
+        results = []
+        for it, sd in enumerate(seeds):
+            out = setting.generate_random_effective_lindbladian(sd)
+            L, rv_h, rv_k, U, rand_gb = out
+            hvec = sh * rv_h / np.sqrt(np.sum(rv_h ** 2))
+            kvec = np.abs(sk * rv_k / np.sqrt(np.sum(rv_k ** 2)))
+            H = sum(hvec[a] * B[a + 1] for a in range(n - 1))
+            K = U @ np.diag(kvec) @ U.conj().T
+            ref_rand = hs_of_lcb(B, lcb_gksl(B, H, K)).real
+            ref = saved + ref_rand
+            if not near(L.hs, ref, 1e-9, ref=S):
+                V("call-%s" % ("first" if it == 0 else "later"),
+                  f"generate() call #{it + 1} (seed {sd}) differs from base + GKSL(H_random, K_random) by {np.abs(L.hs - ref).max():.3g}")
+            if not near(rand_gb, ref_rand, 1e-9, ref=S):
+                V("random-part", f"returned random generator (call #{it + 1}) differs from GKSL(H_random, K_random) by {np.abs(rand_gb - ref_rand).max():.3g}")
+            if not np.array_equal(setting.lindbladian_base.hs, saved):
+                V("base-mutated", f"lindbladian_base.hs changed by {np.abs(setting.lindbladian_base.hs - saved).max():.3g} after generate() call #{it + 1}")
+            if np.shares_memory(L.hs, setting.lindbladian_base.hs):
+                V("aliases-base", f"result of call #{it + 1} shares memory with lindbladian_base.hs")
+            if not (L.is_tp() and L.is_cp()):
+                V("not-physical", f"call #{it + 1}: is_tp={L.is_tp()} is_cp={L.is_cp()}")
+            results.append(np.array(L.hs, copy=True))
+        if not fails:
+            again = setting.generate_random_effective_lindbladian(seeds[0])[0]
+            if not near(again.hs, results[0], 1e-12, ref=S):
+                V("seed-not-reproducible", f"same integer seed {seeds[0]} gives a generator differing by {np.abs(again.hs - results[0]).max():.3g} on a later call")
+            G = setting.generate_gate(seeds[1])[0]
+            if not near(G.hs, expm(results[1]), 1e-9):
+                V("generate_gate", f"generate_gate(seed) differs from expm(generator of the same seed) composed with the identity base by {np.abs(G.hs - expm(results[1])).max():.3g}")
+    except Exception as e:  # noqa
+        V("raises", f"{type(e).__name__}: {e}")
+    return fails
+
+
 def search(ctx):
     oracle(ctx, volume=3)
 
@@ -773,6 +842,11 @@ def replay(ctx, data):
     r = data["replay"]
     sig = data.get("signature", "")
     print("replaying", sig, "on", r.get("sys") or r.get("system"))
+    if r["kind"] == "randset":
+        f = check_random_setting(ctx, r["sys"], r["rot_seed"], r["base"], r["sh"], r["sk"], r["seeds"])
+        for v in ctx.violations:
+            print("  still failing:", v["signature"], "-", v["what"])
+        return 1 if f else 0
     if r["kind"] == "typical":
         f = check_typical(ctx, r["system"], r["name"], r["ids"])
         for v in ctx.violations:
